@@ -101,6 +101,15 @@ pub fn run(report: &dyn Fn(&str, String, String, &str)) {
     let proof = transcript.finalize();
 
     let bytes = vk.to_bytes(SerdeFormat::RawBytes);
+    // header byte 1 is k: every value must be decoded to Ok or Err, never panic
+    for kb in 0..=255u8 {
+        let mut forged = bytes.clone();
+        forged[1] = kb;
+        let decoded = panic::catch_unwind(|| Vk::from_bytes::<StandardPlonk>(&forged, SerdeFormat::RawBytes).is_ok());
+        if decoded.is_err() {
+            report("domain_size", format!("VerifyingKey::read on an honest key whose k byte is set to {kb}"), "decoder PANICKED".into(), "Ok or Err");
+        }
+    }
     let n = u32::from_le_bytes(bytes[2..6].try_into().unwrap()) as usize;
     let rest = bytes.len() - 6;
     // the permutation commitments follow the fixed ones; all commitments have the same size
